@@ -1482,6 +1482,37 @@ func (c *Ctx) InferredVariableTypeIsDeclared(ob *core.Obligation) {
 		if !bad {
 			ob.Pass(key, c.P.Pos(firstPos(e)), "a variable is given its declared type name (or 'unknown')")
 		}
+		// an infix expression has the type of its left operand (that is what the interpreter
+		// dispatches on): the arm asks the same function about that operand
+		if ie := entries["BinaryInfix"]; ie != nil {
+			key2 := "inferred-type:" + core.SSAName(fn) + ":infix"
+			bad2 := false
+			for _, ret := range core.Returns(fn) {
+				if !ie.Dominates(ret.Block()) {
+					continue
+				}
+				v := resolveLocal(ret.Results[0])
+				if k, ok := core.ConstString(v); ok && k == "any" {
+					continue
+				}
+				if call, ok := v.(*ssa.Call); ok && call.Call.StaticCallee() == fn {
+					left := false
+					for _, a := range call.Call.Args {
+						if strings.HasSuffix(fieldPath(a), "Left") {
+							left = true
+						}
+					}
+					if left {
+						continue
+					}
+				}
+				bad2 = true
+				ob.Fail(key2, c.P.Pos(ret.Pos()), "the type inferred for an infix expression is not the type inferred for its left operand: "+core.ShortVal(v)+"; nested arithmetic on monetaries is then checked as if it were on numbers (or the reverse)")
+			}
+			if !bad2 {
+				ob.Pass(key2, c.P.Pos(firstPos(ie)), "an infix expression is given the type of its left operand")
+			}
+		}
 	}
 	if n == 0 {
 		ob.Unknown("inferred-type:none", "-", "no type-inference function over expressions found in the checker")
